@@ -25,10 +25,13 @@ type c03Case struct {
 	HandlerNotifOn int              `json:"handler_notif_on,omitempty"`
 	HandlerNotif   *world.NotifSpec `json:"handler_notif,omitempty"`
 	SleepUpdNs     int64            `json:"sleep_upd_ns,omitempty"`
-	SleepEstNs     int64            `json:"sleep_est_ns,omitempty"`
-	End            string           `json:"end,omitempty"`         // "", "fin"
-	LocalHold      *int             `json:"local_hold,omitempty"`  // configured hold time (nil: 90)
-	RemoteHold     *uint16          `json:"remote_hold,omitempty"` // hold time in the remote's OPEN (nil: 90)
+	// Echo: the handler itself calls WriteUpdate on the session's writer (a route
+	// reflector does), from inside its first call
+	Echo       bool    `json:"echo,omitempty"`
+	SleepEstNs int64   `json:"sleep_est_ns,omitempty"`
+	End        string  `json:"end,omitempty"`         // "", "fin"
+	LocalHold  *int    `json:"local_hold,omitempty"`  // configured hold time (nil: 90)
+	RemoteHold *uint16 `json:"remote_hold,omitempty"` // hold time in the remote's OPEN (nil: 90)
 	// Prev: earlier sessions of the same peer (outbound: the same FSM object)
 	Prev []world.PrevSession `json:"prev,omitempty"`
 }
@@ -90,10 +93,13 @@ func c03Prop(t *testing.T, r *hx.Run) func(c c03Case) hx.Verdict {
 		if c.RemoteHold != nil {
 			rhold = *c.RemoteHold
 		}
-		v.Class += fmt.Sprintf("/hold0=%v/slowhandler=%v", p.Hold == 0 || rhold == 0, c.SleepUpdNs >= int64(time.Second))
+		v.Class += fmt.Sprintf("/hold0=%v/slowhandler=%v/echo=%v", p.Hold == 0 || rhold == 0, c.SleepUpdNs >= int64(time.Second), c.Echo)
 		p.Plugin.HandlerNotifOn = c.HandlerNotifOn
 		p.Plugin.HandlerNotif = c.HandlerNotif
 		p.Plugin.SleepNs = map[string]int64{"upd": c.SleepUpdNs, "est": c.SleepEstNs}
+		if c.Echo {
+			p.Plugin.WriteInUpd = []hx.Hex{hx.Hex(taggedUpdate(0xE1000000, 23)), hx.Hex(taggedUpdate(0xE1000001, 0))}
+		}
 		var dev *hx.Dev
 		fail := func(key, f string, a ...any) {
 			if dev == nil {
@@ -291,10 +297,11 @@ func genC03(rt *rapid.T) c03Case {
 	}
 	if rapid.IntRange(0, 3).Draw(rt, "withprev") == 0 {
 		for i, n := 0, rapid.IntRange(1, 2).Draw(rt, "nprev"); i < n; i++ {
-			c.Prev = append(c.Prev, world.PrevSession{Hold: pick[uint16](rt, "prevhold", 0, 3, 90), End: pick(rt, "prevend", "fin", "cease")})
+			c.Prev = append(c.Prev, world.PrevSession{Hold: pick[uint16](rt, "prevhold", 0, 3, 90), End: pick(rt, "prevend", "fin", "cease", "cease+junk")})
 		}
 		c.SleepEstNs = 0 // (a sleeping OnEstablished would also hold up the earlier sessions' scripted ends)
 	}
+	c.Echo = rapid.IntRange(0, 3).Draw(rt, "echo") == 0
 	// negotiated hold time: 0 (no timers; KEEPALIVEs from the remote are still tolerated), small, default
 	switch rapid.IntRange(0, 5).Draw(rt, "holdkind") {
 	case 0:
